@@ -4,6 +4,9 @@ use std::slice::SliceIndex;
 use std::sync::{Arc, RwLock, RwLockWriteGuard};
 use std::thread::panicking;
 use std::time::Duration;
+#[cfg(indicatif_verif)]
+use crate::verif_clock::Instant;
+#[cfg(not(indicatif_verif))]
 #[cfg(not(target_arch = "wasm32"))]
 use std::time::Instant;
 
